@@ -933,3 +933,30 @@ Proof.
   intros H1 H2 Hle. exists (clamp v mn mx). split; [apply clamp_stats_exact; assumption|].
   split; [apply clamp_bounds; exact Hle|apply clamp_id].
 Qed.
+
+(* ================================================================== *)
+(** * 8. A decidable equality, to run concrete histories by computation *)
+(* ================================================================== *)
+
+Definition fv_eqb (a b : fval) : bool :=
+  match a, b with
+  | FNaN, FNaN => true
+  | FInf s, FInf t => Bool.eqb s t
+  | FFin x, FFin y => weqb x y
+  | _, _ => false
+  end.
+Lemma fv_eqb_eq a b : fv_eqb a b = true -> a = b.
+Proof.
+  destruct a as [|s|x], b as [|t|y]; cbn [fv_eqb]; intros H; try discriminate; try reflexivity.
+  - apply Bool.eqb_prop in H. now subst.
+  - apply weqb_eq in H. now subst.
+Qed.
+Definition xs_eqb (s t : xsummary) : bool :=
+  fv_eqb (g_count s) (g_count t) && fv_eqb (g_sum s) (g_sum t) && fv_eqb (g_comp s) (g_comp t) &&
+  fv_eqb (g_simple s) (g_simple t) && fv_eqb (g_min s) (g_min t) && fv_eqb (g_max s) (g_max t).
+Lemma xs_eqb_eq s t : xs_eqb s t = true -> s = t.
+Proof.
+  unfold xs_eqb. intros H. repeat (apply andb_prop in H; destruct H as [H ?]).
+  destruct s as [c1 s1 k1 p1 mn1 mx1], t as [c2 s2 k2 p2 mn2 mx2]; cbn [g_count g_sum g_comp g_simple g_min g_max] in *.
+  apply mk_eq; apply fv_eqb_eq; assumption.
+Qed.
